@@ -98,12 +98,17 @@ def reg_class(reg, name):
     raise KeyError(name)
 
 
-def request_class(errs, kind, n, status=500, pool=False):
+def request_class(errs, kind, n, status=500, pool=False, after_transient=False):
     """class raised by RpcNode.request when the node answers n times <status> with this error list (kind permanent: answered once; temporary: retried until exhausted)"""
     import json as _json
     from pytezos.rpc.node import RpcNode
     body = _json.dumps([{'id': '.'.join(i), 'kind': kind} for i in errs])
-    boundary.reset([boundary.make_response(status, 'application/json', body) for _ in range(n)])
+    script = [boundary.make_response(status, 'application/json', body) for _ in range(n)]
+    if after_transient:
+        # two retried answers first (a transient node error of another kind), then the answer that counts: the class is the class of the last answer
+        other = _json.dumps([{'id': 'node.mempool.busy', 'kind': 'temporary'}])
+        script = [boundary.make_response(503, 'application/json', other), boundary.make_response(500, 'application/json', other)] + script
+    boundary.reset(script)
     try:
         if pool:      # the same answer through the node-pool entry point (a list of URIs)
             from pytezos.rpc.node import RpcMultiNode
@@ -150,8 +155,10 @@ def run(ctx):
             nreq += 1
             want = reg_class(reg, st['class'])
             transient_ok = not any(e[0] == 'proto' for e in errs)
-            for kind, n, status, pool in (('permanent', 1, 500, False), ('permanent', 1, 500, True), ('permanent', 1, (400, 403, 409, 410)[nreq % 4], False)) + ((('temporary', 12, 500, False),) if transient_ok else ()):
-                got, sent = request_class(errs, kind, n, status, pool)
+            for kind, n, status, pool in (('permanent', 1, 500, False), ('permanent', 1, 500, True), ('permanent', 1, (400, 403, 409, 410)[nreq % 4], False),
+                                          ('after-transient', 1, (400, 403, 500, 409)[nreq % 4], False)) + ((('temporary', 12, 500, False),) if transient_ok else ()):
+                after = kind == 'after-transient'
+                got, sent = request_class(errs, 'permanent' if after else kind, n, status, pool, after_transient=after)
                 ctx.count(('request', errs, kind, status, pool), nontrivial=True)
                 ctx.replayed += 1
                 if got is not want:
